@@ -1,7 +1,7 @@
 (* C08 — Encoding is deterministic, canonical, and always decodable.
    Statements only (copied from coq/theories by bin/mkprops); each proof is `exact <lemma>`. *)
 From Coq Require Import Ascii String ZArith List Bool Permutation.
-From GoCose Require Import Bytes Cbor CborProofs Res GoVal Obs Ecdsa EcdsaProofs Fx Headers Enc Dec Msg HashEnv Key SigVer Run TbsProofs FlowProofs DecProofs KeyProofs HdrProofs EncProofs NoPanic Effects.
+From GoCose Require Import Bytes Cbor CborProofs Res GoVal Obs Ecdsa EcdsaProofs Fx Headers Enc Dec Msg HashEnv Key SigVer Run TbsProofs FlowProofs DecProofs KeyProofs HdrProofs EncProofs EncCanon NoPanic Effects.
 From GoCose.Gen Require Import Generated.
 Import ListNotations.
 Open Scope Z_scope.
@@ -27,6 +27,31 @@ Theorem C08_enc_heads_shortest :
   (forall b, enc_tstr b = head 3 (minw (len b)) (len b) ++ b).
 Proof. exact enc_heads_shortest. Qed.
 Print Assumptions C08_enc_heads_shortest.
+
+(* by induction over arbitrarily nested values: the output is the serialisation of a well-formed tree with shortest heads and strictly sorted map keys *)
+Theorem C08_enc_canonical :
+  forall g, encodes g.
+Proof. exact enc_canonical. Qed.
+Print Assumptions C08_enc_canonical.
+
+(* and therefore parses back to exactly one canonical item *)
+Theorem C08_enc_output_parses :
+  forall g b,
+  gv_plain g = true -> enc g = Acc b -> exists w, parse_full b = Some w /\ canonical w = true.
+Proof. exact enc_output_parses. Qed.
+Print Assumptions C08_enc_output_parses.
+
+Theorem C08_enc_hmap_canonical :
+  forall l b,
+  gv_plain (GMap l) = true -> enc_hmap l = Acc b -> exists w, b = ser w /\ wf w = true /\ canonical w = true.
+Proof. exact enc_hmap_canonical. Qed.
+Print Assumptions C08_enc_hmap_canonical.
+
+Theorem C08_canonical_example :
+  enc (GMap [GInt KInt 256; GStr [97]; GInt KInt64 (-1); GArr [GBytes []; GBool true]; GStr []; GInt KUint8 24]) =
+  Acc [163; 25; 1; 0; 97; 97; 32; 130; 64; 245; 96; 24; 24].
+Proof. exact canonical_example. Qed.
+Print Assumptions C08_canonical_example.
 
 Theorem C08_ssorted_unique :
   forall l m, ssorted l -> ssorted m -> Permutation l m -> l = m.
